@@ -73,6 +73,16 @@ Definition loc_fn (lm : loc_method) : option (vec -> Qc) :=
 Lemma rd_nd_memo X I : rd (nd_memo X) I = rd X I.
 Proof. unfold rd. now rewrite nd_memo_shape, nd_memo_get. Qed.
 
+(** an in-range index into an array with a single element is the all-zero index *)
+Lemma in_range_size1 s : forall J, in_range s J -> fold_right Z.mul 1 s = 1 -> J = map (fun _ => 0) s.
+Proof. induction s as [|d s IH]; intros [|i J] H P; cbn in H; try tauto; try reflexivity.
+  destruct H as [Hi HJ]. cbn [fold_right] in P.
+  assert (Hs : 0 <= fold_right Z.mul 1 s).
+  { clear -HJ. revert J HJ. induction s as [|e s IHs]; intros [|j J] HJ; cbn in HJ; try tauto; cbn; try lia.
+    destruct HJ as [Hj HJ]. specialize (IHs J HJ). apply Z.mul_nonneg_nonneg; lia. }
+  assert (d = 1 /\ fold_right Z.mul 1 s = 1) as [-> Ps] by (apply Z.eq_mul_1_nonneg; [lia|exact P]).
+  cbn [map]. f_equal; [lia|]. now apply IH. Qed.
+
 Section MainFields.
   Variables (np_sqrt : Qc -> Qc) (np_pi : Qc) (np_std1 biweight1 : vec -> Qc) (np_cov01 : vec -> vec -> Qc).
   Notation est := (estimate_scale np_sqrt np_pi np_std1 biweight1 np_cov01 nd_memo).
@@ -124,6 +134,45 @@ Section MainFields.
     destruct P2 as [Q1 [Q2 _]]. destruct P3 as [Q3 Q4].
     rewrite rd_nd_memo, Rl in Q4. split; [reflexivity|]. split; [exact Q3|]. split; [exact Q1|]. split; [exact Q2|exact Q4]. Qed.
 
+  (** the same over the whole array (axis=None): the location returned is the location of the flattened data, the divisor returned is
+      what estimate_scale returns for the flattened data as a 1-D array, or 1; 1 with Z-scores x - loc when that estimate is zero *)
+  Theorem main_zscore_fields_none sh A m F lm f : sh <> nil -> shape A = sh -> sfn m = Some F -> loc_fn lm = Some f ->
+    all_idx sh <> nil ->
+    exists z l s v, zsc A lm m None = Some (z, l, s) /\ est (of_vec (ravel A)) m None false = Some (scalar v) /\
+      bc sh (shape l) /\ bc sh (shape s) /\ shape z = sh /\
+      forall I, in_range sh I ->
+        rd l I = f (ravel A) /\ (rd s I = qz 1 \/ rd s I = v) /\ (Q2Qc 0 < rd s I)%Qc /\
+        rd z I = ((rd A I - f (ravel A)) / rd s I)%Qc /\
+        (v = qz 0 -> rd s I = qz 1 /\ rd z I = (rd A I - f (ravel A))%Qc).
+  Proof. intros Hsh HA HF Hf Hne.
+    destruct (main_keepdims_none np_sqrt np_pi np_std1 biweight1 np_cov01 sh A m F Hsh HA HF Hne) as [B [v [EB [SB [BB [Ev RB]]]]]].
+    destruct (loc_fn_est lm f A None Hf) as [Ln El].
+    set (loc := np_reduce f A None true) in *.
+    assert (Bl : bc sh (shape (nd_memo loc))).
+    { rewrite nd_memo_shape. unfold loc. rewrite <- HA. apply bc_reduce. now rewrite HA. }
+    assert (Bs : bc sh (shape (nd_memo B))) by now rewrite nd_memo_shape.
+    pose proof (ztail_fields_bc nd_memo memo_ok_nd_memo sh A (nd_memo loc) (nd_memo B) None Hsh HA Bl Bs) as P1.
+    assert (EZ : zsc A lm m None = Some (ztail nd_memo A (nd_memo loc) (nd_memo B) None)).
+    { rewrite estimate_zscore_unfold, Ln, El, (sfn_not_norm m F HF), EB. reflexivity. }
+    destruct (ztail nd_memo A (nd_memo loc) (nd_memo B) None) as [[z l] s] eqn:ET.
+    destruct P1 as [-> Bs'].
+    exists z, (nd_memo loc), s, v. split; [exact EZ|]. split; [exact Ev|]. split; [exact Bl|]. split; [exact Bs'|].
+    assert (Hsome : exists I1, in_range sh I1).
+    { destruct (all_idx sh) as [|I1 r] eqn:E; [congruence|]. exists I1. apply in_range_all_idx. rewrite E. now left. }
+    split.
+    - destruct Hsome as [I1 H1].
+      pose proof (zscore_divisor_positive nd_memo memo_ok_nd_memo sh A (nd_memo loc) (nd_memo B) None Hsh HA Bl Bs I1 H1) as P0.
+      rewrite ET in P0. now destruct P0 as [_ [_ S]].
+    - intros I HIj.
+      pose proof (zscore_divisor_positive nd_memo memo_ok_nd_memo sh A (nd_memo loc) (nd_memo B) None Hsh HA Bl Bs I HIj) as P2.
+      pose proof (ztail_fields_rd nd_memo memo_ok_nd_memo sh A (nd_memo loc) (nd_memo B) None Hsh HA Bl Bs I HIj) as P3.
+      rewrite ET in P2, P3. rewrite !rd_nd_memo in P2, P3.
+      assert (Rl : rd loc I = f (ravel A)) by reflexivity.
+      assert (Rs : rd B I = v) by (apply RB; now apply in_range_length).
+      rewrite Rl, Rs in *. rewrite rd_nd_memo, Rl.
+      destruct P2 as [Q1 [Q2 _]]. destruct P3 as [Q3 Q4]. rewrite rd_nd_memo, Rl in Q4.
+      split; [reflexivity|]. split; [exact Q3|]. split; [exact Q1|]. split; [exact Q2|exact Q4]. Qed.
+
   (** scale method 'norm' on 1-D data (TimeSeries.normalise, every lane): the divisor is 1 and the Z-scores are x - loc; location
       method 'norm': the location returned reads 0.  PARTIAL: 1-D data only -- np.ones(1) / np.zeros(1) against data of rank >= 2 is
       outside [bc] (same rank or scalar), although [bidx] evaluates it and the correspondence run covers it. *)
@@ -149,17 +198,20 @@ Section MainFields.
     - intros ->. cbn in El. injection El as <-. rewrite rd_nd_memo. reflexivity. Qed.
 
   (** keepdims=False along an axis: the array of the per-lane estimates, of the input's shape without the reduced axis; a single
-      lane comes back as a scalar.  PARTIAL: in the single-lane (scalar) case only the shape is stated, not the value. *)
-  Theorem main_nokd_axis_partial sh A m F k0 I0 : sh <> nil -> shape A = sh -> sfn m = Some F -> in_range sh I0 ->
+      lane comes back as a scalar holding that lane's estimate *)
+  Theorem main_nokd_axis sh A m F k0 I0 : sh <> nil -> shape A = sh -> sfn m = Some F -> in_range sh I0 ->
     let k := axis_of sh k0 in 1 <= nth k sh 0 ->
     exists B, est A m (Some k0) false = Some B /\
-      (size (F A (Some k0)) = 1 -> shape B = nil) /\
+      (size (F A (Some k0)) = 1 -> shape B = nil /\ get B nil = get (F (of_vec (lane A k I0)) None) nil) /\
       (size (F A (Some k0)) <> 1 -> shape B = remove_nth k sh /\
          get B (remove_nth k I0) = get (F (of_vec (lane A k I0)) None) nil).
   Proof. intros Hsh HA HF HI k Hn.
     destruct (main_lane np_sqrt np_pi biweight1 np_cov01 sh A Hsh HA k0 I0 HI Hn m F HF) as [S G]. fold k in S, G.
     rewrite (est_epilogue np_sqrt np_pi np_std1 biweight1 np_cov01 A m F (Some k0) false HF), (epilogue_nokd nd_memo memo_ok_nd_memo).
     eexists. split; [reflexivity|]. split; intro Hs.
-    - apply Z.eqb_eq in Hs. rewrite Hs. reflexivity.
+    - assert (Hz : remove_nth k I0 = map (fun _ => 0) (remove_nth k sh)).
+      { apply in_range_size1; [now apply in_range_remove_nth|]. unfold size in Hs. now rewrite S in Hs. }
+      apply Z.eqb_eq in Hs. rewrite Hs. split; [reflexivity|]. cbn [get scalar]. unfold item.
+      rewrite nd_memo_shape, nd_memo_get, S, <- Hz. exact G.
     - apply Z.eqb_neq in Hs. rewrite Hs. rewrite nd_memo_shape, nd_memo_get. split; [exact S|exact G]. Qed.
 End MainFields.
